@@ -865,6 +865,31 @@ def flag_uses(fn, der):
     return uses
 
 
+def flag_locals(fn):
+    """the local holding the definition's utf8 flag: identified by use (it is what is stored into graph::Config.utf8_mode),
+    not by its name"""
+    out = set()
+    for bi, si, st in fn.stmts():
+        rhs = st['rhs']
+        if rhs['rv'] == 'agg' and rhs['kind'].get('adt') == 'graph::Config' and bi in fn.live_blocks():
+            for n, o in zip(rhs['fields'], rhs['ops']):
+                if n != 'utf8_mode':
+                    continue
+                pl = op_place(o)
+                cur = pl['local'] if pl and not pl['proj'] else None
+                for _ in range(20):
+                    if cur is None:
+                        break
+                    ds = fn.defs().get(cur, [])
+                    if len(ds) == 1 and ds[0][0] == 'stmt' and ds[0][3]['rhs']['rv'] == 'use' and op_place(ds[0][3]['rhs']['a']) and not op_place(ds[0][3]['rhs']['a'])['proj']:
+                        cur = op_place(ds[0][3]['rhs']['a'])['local']
+                    else:
+                        break
+                if cur is not None:
+                    out.add(cur)
+    return sorted(out)
+
+
 def place_fields(pl):
     return '.'.join(fields_of(pl))
 
@@ -877,8 +902,8 @@ def rule_utf8_flow(rep, crate):
     fn = crate.fns.get(GEN)
     if not rep.anchor(rid, 'fn logos_codegen::generate', fn is not None):
         return
-    src = [l for l, n in fn.names.items() if n == 'utf8_mode']
-    if not rep.anchor(rid, 'local utf8_mode in generate', len(src) == 1):
+    src = flag_locals(fn)
+    if not rep.anchor(rid, 'the utf8 flag of generate (the value stored into graph::Config.utf8_mode)', len(src) == 1):
         return
     der = derived_locals(fn, src[0])
     uses = flag_uses(fn, der)
@@ -974,7 +999,7 @@ def rule_utf8_gate(rep, crate):
     rid = rep.rule('M-C04a', 'UTF-8 acceptance gates: in generate an error is recorded for every leaf whose pattern is not Properties::is_utf8() whenever utf8 mode is on; in Subpatterns::new `utf8_mode && !is_utf8` records an error and skips the insertion; both precede the compile_error gate', floor=2)
     fn = crate.fns.get(GEN)
     if rep.anchor(rid, 'fn logos_codegen::generate', fn is not None):
-        src = [l for l, n in fn.names.items() if n == 'utf8_mode']
+        src = flag_locals(fn)
         filt = None
         for bi, t in find_calls(fn, r'Iterator::filter$|Iterator>::filter$'):
             a = trace(fn, t['args'][1])
